@@ -2,7 +2,7 @@
    computes to true (by vm_compute on the table regenerated from the live classes), every side
    condition the engine contracts need holds. *)
 From Coq Require Import List Bool Arith NArith Lia.
-From FV Require Import Scope Engine EngineContracts.
+From FV Require Import Scope Engine EngineContracts EngineShape.
 Import ListNotations.
 
 Definition is_leafb (T : table) (c : cls) : bool :=
@@ -16,8 +16,18 @@ Definition hook_okb (T : table) (b : bspec) : bool :=
            (match b_start b with
             | Some stc => is_leafb T stc && negb (c_scoping (entry T stc)) | None => false end).
 
+Definition nostart_okb (b : bspec) : bool :=
+  match b_start b with
+  | None => negb (b_match_labels b) && negb (b_match_names b)
+  | Some _ => true
+  end.
+
 Definition entry_okb (T : table) (ce : cls * centry) : bool :=
-  match c_kind (snd ce) with KBlock b => hook_okb T b | KMain0 b => hook_okb T b | _ => true end.
+  match c_kind (snd ce) with
+  | KBlock b => hook_okb T b && nostart_okb b
+  | KMain0 b => hook_okb T b && nostart_okb b
+  | _ => true
+  end.
 
 (* the three variant flags are selected by the translator's probes of the real methods *)
 Definition table_ok (T : table) : bool :=
@@ -52,8 +62,15 @@ Record TableSound (T : table) : Prop := {
   ts_cleanup : t_cleanup_all T = true;
   ts_inc : is_leaf T (t_include T);
   ts_cpp : forall c, In c (t_cpp T) -> is_leaf T c;
-  ts_hook : forall c b, (c_kind (entry T c) = KBlock b \/ c_kind (entry T c) = KMain0 b) -> hook_ok T b
+  ts_hook : forall c b, (c_kind (entry T c) = KBlock b \/ c_kind (entry T c) = KMain0 b) -> hook_ok T b;
+  ts_nostart : forall c b, (c_kind (entry T c) = KBlock b \/ c_kind (entry T c) = KMain0 b) -> nostart_ok b
 }.
+
+Lemma nostart_okb_sound b : nostart_okb b = true -> nostart_ok b.
+Proof.
+  unfold nostart_okb, nostart_ok. intros H E. rewrite E in H. apply andb_true_iff in H as [A B].
+  split; now apply negb_true_iff.
+Qed.
 
 Theorem table_ok_sound T : table_ok T = true -> TableSound T.
 Proof.
@@ -65,7 +82,14 @@ Proof.
     destruct (assoc_in c (t_entries T)) as [E|[k E]].
     + rewrite E in Hk. cbn in Hk. destruct Hk; discriminate.
     + eapply forallb_forall in H0; [|exact E]. unfold entry_okb in H0. cbn [snd] in H0.
-      apply hook_okb_sound. destruct Hk as [Hk|Hk]; rewrite Hk in H0; exact H0.
+      apply hook_okb_sound. destruct Hk as [Hk|Hk]; rewrite Hk in H0;
+        apply andb_true_iff in H0 as [H0 _]; exact H0.
+  - intros c b Hk. unfold entry in Hk.
+    destruct (assoc_in c (t_entries T)) as [E|[k E]].
+    + rewrite E in Hk. cbn in Hk. destruct Hk; discriminate.
+    + eapply forallb_forall in H0; [|exact E]. unfold entry_okb in H0. cbn [snd] in H0.
+      apply nostart_okb_sound. destruct Hk as [Hk|Hk]; rewrite Hk in H0;
+        apply andb_true_iff in H0 as [_ H0]; exact H0.
 Qed.
 
 (* The engine contract for every table that passes the check and every leaf oracle. *)
@@ -74,4 +98,12 @@ Theorem engine_contract T (L : item -> cls -> list cls -> leafres) :
 Proof.
   intros H fuel. destruct (table_ok_sound T H).
   apply new_contract; assumption.
+Qed.
+
+(* K4 for every table that passes the check and every leaf oracle. *)
+Theorem engine_shape T (L : item -> cls -> list cls -> leafres) :
+  table_ok T = true -> forall fuel, ShapeC T (new T L fuel).
+Proof.
+  intros H. pose proof (engine_contract T L H) as HC. destruct (table_ok_sound T H).
+  apply new_shape; assumption.
 Qed.
